@@ -1141,6 +1141,14 @@ def main2():
         report["kernels"][sp["fn"] + "(flow skeleton)"] = dict(info, file=sp["file"])
     except Unsupported as e:
         report["errors"].append(f"agent/conncheck.c:priv_map_reply_to_relay_request: {e}")
+    try:
+        import extract_flow
+        fpath = os.path.join(REPO, "stun/usages/ice.c")
+        d = ast_of(fpath, "stun_usage_ice_conncheck_create_reply")
+        open(os.path.join(GEN, "RoleConflict.lean"), "w").write(extract_flow.translate_role_guard(d, open(fpath, "rb").read(), Unsupported))
+        report["kernels"]["stun_usage_ice_conncheck_create_reply(role guard)"] = {"file": "stun/usages/ice.c"}
+    except Unsupported as e:
+        report["errors"].append(f"stun/usages/ice.c:role guard: {e}")
     out.append("end Nice.Gen\n")
     open(os.path.join(GEN, "Kernels.lean"), "w").write("\n".join(out))
     with open(os.path.join(GEN, "Tables.lean"), "w") as f:
